@@ -898,8 +898,9 @@ def crosscheck_path(C, init, args, kwargs, result, exc, model, proved=()):
         except Exception as e:   # noqa
             return f'clause {cname} cannot be evaluated on the real run: {e!r}'
         if not ok:
-            return (f'clause {cname} was discharged symbolically but is FALSE on the real run for '
-                    f'{_describe([rpre.args, rpre.kwargs])!r:.400}')
+            return (f'clause {cname} was discharged symbolically but is FALSE on the real run for kwargs '
+                    f'{_describe(rpre.kwargs)!r:.300} args {_describe(rpre.args)!r:.400}; real outcome: '
+                    f'{"raised " + repr(rexc) if rexc is not None else "returned " + repr(_describe(res))[:200]}')
     R = Reifier(model)
     sym_res = R(result)
     sym_args = R(list(args))
